@@ -14,9 +14,10 @@ NthSmallest(Sx, n) == CHOOSE x \in Sx : Cardinality({y \in Sx : y < x}) = n - 1
 
 (* the unique arrangement of the (distinct) elements of s under the strict *)
 (* total order Before                                                      *)
-SortSeqBy(s, Before(_, _)) ==
-  LET Sx == SeqToSet(s) IN
-  [i \in 1..Len(s) |-> CHOOSE x \in Sx : Cardinality({y \in Sx : Before(y, x)}) = i - 1]
+SortSetBy(Sx, Before(_, _)) ==
+  [i \in 1..Cardinality(Sx) |-> CHOOSE x \in Sx : Cardinality({y \in Sx : Before(y, x)}) = i - 1]
+
+SortSeqBy(s, Before(_, _)) == SortSetBy(SeqToSet(s), Before)
 
 PosIn(L, h) == CHOOSE i \in DOMAIN L : L[i] = h
 
